@@ -59,6 +59,49 @@ theorem retain_fault (dr : Bool) (keep : Nat → Bool) (k : Nat) (hc : c.lock n)
       rw [ht.1] at hp; cases hp
     · cases hp
 
+/-- **retain_mut with a callback that writes, every fault point**: whatever the callback had written and wherever it
+    panics, every field array still has the original length, the shape is unchanged, and container + destroyed values
+    are what the container held plus what the callback created (nothing lost, nothing twice) -/
+theorem retain_fault_w (dr : Bool) (keep : Nat → Bool) (k : Nat) (touch : Nat → Nat → Option (Nat × Nat)) (hc : c.lock n)
+    (hp : (Model.retain dr c keep (some k) touch).panicked = true) :
+    (Model.retain dr c keep (some k) touch).st.lock n ∧
+    c.same (Model.retain dr c keep (some k) touch).st ∧
+    ((Model.retain dr c keep (some k) touch).st.flat ++ (Model.retain dr c keep (some k) touch).ev.drops).Perm
+      (c.flat ++ (Model.retain dr c keep (some k) touch).made) := by
+  have hcons := C03.retain dr c keep (some k) touch
+  have hl := Lp.retainLoopW_lock keep (some k) touch n n 0 0 c [] {} [] hc (by omega) (by omega)
+  have hs := Lp.retainLoopW_same keep (some k) touch n n 0 0 c [] {} [] hc (by omega) (by omega)
+  have hheld : C03.held (Model.retain dr c keep (some k) touch) = [] := by
+    unfold Model.retain
+    rw [firstLen_lock c n hc]
+    dsimp only
+    split
+    · rfl
+    · split
+      · have := (C03.truncateLoop dr (n - (Model.retainLoop keep (some k) touch n 0 0 c [] {} []).del)
+          ((Model.retainLoop keep (some k) touch n 0 0 c [] {} []).c.firstLen - (n - (Model.retainLoop keep (some k) touch n 0 0 c [] {} []).del) + 1)
+          (Model.retainLoop keep (some k) touch n 0 0 c [] {} []).c {}).2
+        simp [C03.held, Model.truncate, this.1, this.2]
+      · rfl
+  rw [hheld, List.append_nil] at hcons
+  refine ⟨?_, ?_, hcons⟩
+  all_goals
+    unfold Model.retain at hp ⊢
+    rw [firstLen_lock c n hc] at hp ⊢
+    dsimp only at hp ⊢
+    generalize Model.retainLoop keep (some k) touch n 0 0 c [] {} [] = L at hl hs hp ⊢
+    by_cases hb : L.boom = true
+    · simp only [hb, ↓reduceIte]
+      first | exact hl | exact hs
+    · simp only [hb, Bool.false_eq_true, ↓reduceIte] at hp
+      exfalso
+      split at hp
+      · have ht := truncateLoop_ok dr (n - L.del) (L.c.firstLen - (n - L.del) + 1) n L.c {} hl
+          (by rw [firstLen_lock _ n hl]; omega)
+        simp only [Model.truncate] at hp
+        rw [ht.1] at hp; cases hp
+      · cases hp
+
 /-- the two phases of every generated sort: the permutation of positions is computed with the
     user's callback (`fault` = it panicked), then every field is gathered by it -/
 def sortTwoPhase (c : Cols) (w : View.Win) (le : Nat → Nat → Bool) (fault : Bool) : Cols × Bool :=
